@@ -73,6 +73,7 @@ func VerifNodeLocks(arg string) {
 	for k := 0; k < inc; k++ {
 		filter.Includes = append(filter.Includes, vNodeNames[vChoose(fmt.Sprintf("include_%d", k), n)])
 	}
+	st.lockFailAt = vChoose("lock_fails_at", 3)
 	ran := false
 	heldInside := 0
 	f := func(_ context.Context, nodes map[string]*types.Node) error {
@@ -87,9 +88,13 @@ func VerifNodeLocks(arg string) {
 		// node-operation locks are requested only while nothing else is held
 		vAssert("C20/node-operation-lock-taken-alone", len(st.held) == 0)
 		err = c.withNodeOperationLocked(context.Background(), filter.Includes[0], func(ctx context.Context, _ *types.Node) error { return f(ctx, nil) })
-		vAssert("C20/node-operation-lock-is-single", heldInside == 1)
+		if ran {
+			vAssert("C20/node-operation-lock-is-single", heldInside == 1)
+		}
 	}
-	vAssert("C20/operation-runs", err == nil && ran)
+	if st.lockFailAt == 0 || st.lockFailAt > st.lockCalls {
+		vAssert("C20/operation-runs", err == nil && ran)
+	}
 	vCover("two-locks", heldInside >= 2)
 	vCover("one-lock", heldInside == 1)
 	// acquisition order: strictly ascending keys (hence no repeats)
@@ -117,8 +122,13 @@ func VerifWorkloadLocks(arg string) {
 	for j := 0; j < k; j++ {
 		ids = append(ids, universe[vChoose(fmt.Sprintf("id_%d", j), len(universe))])
 	}
+	// the k-th lock acquisition may fail: what was acquired before must still be released
+	st.lockFailAt = vChoose("lock_fails_at", k+1)
 	err := c.withWorkloadsLocked(context.Background(), false, ids, func(context.Context, map[string]*types.Workload) error { return nil })
-	vAssert("C20/operation-runs", err == nil)
+	vCover("a-later-lock-fails", err != nil && len(st.trace) > 0)
+	if st.lockFailAt == 0 {
+		vAssert("C20/operation-runs", err == nil)
+	}
 	last := ""
 	for _, ev := range st.trace {
 		if ev[0] == 'L' {
